@@ -962,7 +962,10 @@ class AdapterRegistry(BaseAdapterRegistry):
     def __init__(self, bases=()):
         # AdapterRegisties are invalidating registries, so
         # we need to keep track of our invalidating subregistries.
-        self._v_subregistries = weakref.WeakKeyDictionary()
+        # (``rebuild()`` runs ``__init__`` again; the registries based on
+        # us are still there then.)
+        if '_v_subregistries' not in self.__dict__:
+            self._v_subregistries = weakref.WeakKeyDictionary()
 
         super().__init__(bases)
 
